@@ -35,6 +35,35 @@ def check(F, rep, tier):
     want = [("process_core", "core"), ("process_extra_core", "extra_core"), ("process_build", "build")]
     section_wiring(F, rep, sv, "SemVer", want)
     section_wiring(F, rep, pv, "PEP440", want)
+    # schema order: every section processor walks `components` once, front to back, and emits only inside that walk
+    EMIT = ("process_secondary_var", "add_flattened_to_prerelease", "add_flattened_to_build", "add_flattened_to_local", "add_to_local_if_valid",
+            "process_epoch", "process_prerelease", "process_post", "process_dev")
+    n_proc = 0
+    for pat in ("semver::from_zerv::<impl crate::version::semver::core::SemVer>::process_", "pep440::from_zerv::<impl crate::version::pep440::core::PEP440>::process_"):
+        for nm in ("core", "extra_core", "build"):
+            g = [x for x in F.find(pat + nm) if x.kind != "closure" and x.path.endswith("process_" + nm)]
+            if not rep.anchor("R06.1", pat.split("::")[0] + " process_" + nm, g): continue
+            g = g[0]; n_proc += 1; rep.fn_seen(g)
+            nexts = [(bi, t) for bi, t in g.calls() if (mir.callee(t) or "").endswith("as std::iter::Iterator>::next")]
+            short = pat.split("::")[0] + "::process_" + nm
+            if len(nexts) != 1:
+                rep.bad("R06.1", "schema-order:" + short, "%s has %d iterator loops, expected one walk over the section's components" % (short, len(nexts)), g.where()); continue
+            nb, nt = nexts[0]
+            ity = (nt[1].get("targs") or [""])[0]
+            direct = re.match(r"^std::slice::Iter<'_, crate::version::zerv::components::Component>$", ity) or re.match(r"^std::iter::Enumerate<std::slice::Iter<'_, crate::version::zerv::components::Component>>$", ity)
+            src_ok = False
+            for bi, t in g.calls():
+                c = mir.callee(t) or ""
+                if c.endswith("::into_iter") or c.endswith("::iter"):
+                    if any(o.kind == "param" and o.data == 2 for o in mir.trace_op(g, t[2][0])): src_ok = True
+            fwd = mir.reachable(g, nb)
+            inloop = {b for b in fwd if nb in mir.reachable(g, b) and b != nb} | {nb}
+            outside = [(bi, (mir.callee(t) or "").rsplit("::", 1)[-1]) for bi, t in g.calls() if (mir.callee(t) or "").rsplit("::", 1)[-1] in EMIT and bi not in inloop]
+            if direct and src_ok and not outside:
+                rep.ok("R06.1", "%s: one front-to-back walk over `components` (%s), all emits inside it" % (short, ity.split("<")[0]), nontrivial_key="order:" + short)
+            else:
+                rep.bad("R06.1", "schema-order:" + short, "%s does not emit in schema order: iterator %s (plain slice walk: %s, over the components parameter: %s), emits outside the walk: %s" % (short, ity, bool(direct), src_ok, outside), g.where())
+    rep.floor("R06.1", "section processors", n_proc, 6)
     # ---- R06.2 slot tables ------------------------------------------------------------------------------
     pc = [f for f in F.find("semver::from_zerv::<impl crate::version::semver::core::SemVer>::process_core")]
     if rep.anchor("R06.2", "SemVer::process_core", pc):
@@ -50,6 +79,36 @@ def check(F, rep, tier):
         lt3 = any(d[0] == "bin" and d[1] == "Lt" and mir.const_of(d[3]) == 3 and pol is True for bi, si, st in f.stmts() if st[0] == "=" and len(st[1]) > 1 and st[1][0] == 1 for d, pol, dd in mir.guards_of(f, bi))
         if slots == {0: "major", 1: "minor", 2: "patch"} and lt3: rep.ok("R06.2", "SemVer core: integer #0/#1/#2 -> major/minor/patch under count < 3", nontrivial_key="slots")
         else: rep.bad("R06.2", "semver-slots", "SemVer core slot table is %s (count < 3 guard: %s), expected {0: major, 1: minor, 2: patch}" % (slots, lt3), f.where())
+        # counter discipline: the slot counter starts at 0 and only ever grows by 1, right after a slot write
+        cnt = None
+        for bi, si, st in f.stmts():
+            if st[0] == "=" and st[2][0] == "bin" and st[2][1] == "Lt" and st[2][3][0] == "c" and st[2][3][1].get("v") == 3:
+                # the compared operand is a copy of the counter local
+                src = st[2][2][1]
+                for b2, s2, st2 in f.stmts():
+                    if st2[0] == "=" and st2[1] == src and st2[2][0] == "use" and st2[2][1][0] in ("cp", "mv") and len(st2[2][1][1]) == 1: cnt = st2[2][1][1][0]
+        if cnt is None: rep.bad("R06.2", "unrecognised-shape:slot-counter", "the count < 3 test's counter local was not found", f.where())
+        else:
+            writes = []
+            for bi, si, st in f.stmts():
+                if st[0] == "=" and st[1] == [cnt]:
+                    rvv = st[2]
+                    if rvv[0] == "use" and rvv[1][0] == "c": kind = ("const", rvv[1][1].get("v"))
+                    elif rvv[0] == "use" and rvv[1][0] in ("mv", "cp"):
+                        # moved out of a checked add of the counter itself and 1
+                        kind = ("other", str(rvv[1][1]))
+                        base = rvv[1][1][0]
+                        for b2, s2, st2 in f.stmts():
+                            if st2[0] == "=" and st2[1] == [base] and st2[2][0] == "bin" and st2[2][1] in ("AddWithOverflow", "Add", "AddUnchecked") and st2[2][2][0] in ("cp", "mv") and st2[2][2][1] == [cnt] and st2[2][3][0] == "c" and st2[2][3][1].get("v") == 1:
+                                kind = ("inc", 1)
+                    elif rvv[0] == "bin" and rvv[1] in ("Add", "AddUnchecked") and rvv[2][1] == [cnt] and rvv[3][0] == "c" and rvv[3][1].get("v") == 1: kind = ("inc", 1)
+                    else: kind = ("other", str(rvv)[:60])
+                    guarded = any(d[0] == "bin" and d[1] == "Lt" and mir.const_of(d[3]) == 3 and pol is True for d, pol, dd in mir.guards_of(f, bi))
+                    writes.append((bi, kind, guarded))
+            badw = [w for w in writes if not (w[1] == ("const", 0) and w[0] == 0) and not (w[1] == ("inc", 1) and w[2])]
+            incs = [w for w in writes if w[1] == ("inc", 1)]
+            if badw or len(incs) != 1: rep.bad("R06.2", "slot-counter-writes", "the major/minor/patch slot counter is written other than by `= 0` at entry and one `+= 1` under count < 3: %s" % [(b, k) for b, k, g in (badw or writes)], f.where())
+            else: rep.ok("R06.2", "slot counter: initialised to 0, incremented by 1 only after a slot write (under count < 3)", sample=str(writes), nontrivial_key="counter")
         # the rest goes to the pre-release list
         if any((mir.callee(t) or "").endswith("add_flattened_to_prerelease") for bi, t in f.calls()): rep.ok("R06.2", "remaining core components flow to add_flattened_to_prerelease")
         else: rep.bad("R06.2", "semver-core-rest", "non-integer / extra core components are not added to the pre-release identifiers", f.where())
@@ -101,6 +160,49 @@ def check(F, rep, tier):
                     if any("vars" in o.path_str() or (o.kind == "param" and o.data == 2) for o in src): bad.append("%s bb%d %s" % (g.where(), bi, c.rsplit("::", 1)[-1]))
         if bad: rep.bad("R06.5", "default-for-unset", "an unset variable is replaced by a default inside resolve_value (%s): it would contribute to the output" % bad, rv.where())
         else: rep.ok("R06.5", "no default is substituted for an unset vars field in Var::resolve_value", nontrivial_key="nodefault")
+    # each Var variant reads its own ZervVars field only (helper getters followed): a fallback to another field would make an unset variable contribute
+    if rv is not None:
+        def reads_of(g, depth=0):
+            out = set()
+            for bi in range(len(g.blocks)):
+                b = g.blocks[bi]
+                if b.get("cleanup"): continue
+                out |= set(re.findall(r"\['f', \d+, '([a-z_]+)', 'crate::version::zerv::vars::ZervVars'\]", str(b).replace('"', "'")))
+                t = b["t"]
+                c = mir.callee(t) if t[0] == "call" else None
+                if c and c.startswith("crate::version::zerv::vars::") and depth < 4:
+                    h = F.fn(c)
+                    if h is not None:
+                        out |= reads_of(h, depth + 1)
+                        for ch in F.children(h.path): out |= reads_of(ch, depth + 1)
+            return out
+        tab = {}
+        for bi in range(len(rv.blocks)):
+            b = rv.blocks[bi]
+            if b.get("cleanup"): continue
+            fields = set(re.findall(r"\['f', \d+, '([a-z_]+)', 'crate::version::zerv::vars::ZervVars'\]", str(b).replace('"', "'")))
+            t = b["t"]
+            c = mir.callee(t) if t[0] == "call" else None
+            if c and c.startswith("crate::version::zerv::vars::"):
+                h = F.fn(c)
+                if h is not None:
+                    fields |= reads_of(h)
+                    for ch in F.children(h.path): fields |= reads_of(ch)
+            if not fields: continue
+            vs = [next(iter(pol[1])) for d, pol, dd in mir.guards_of(rv, bi) if d[0] == "discr" and "components::Var" in str(d[2]) and isinstance(pol, tuple) and pol[0] == "in" and len(pol[1]) == 1]
+            for v in vs[-1:]: tab.setdefault(v, set()).update(fields)
+            if not vs: tab.setdefault("<unguarded>", set()).update(fields)
+        def snake(n): return re.sub(r"(?<!^)([A-Z])", r"_\1", n).lower()
+        def expected(v):
+            if v == "Timestamp": return {"bumped_timestamp", "last_timestamp"}      # documented: ts() uses the current commit's time, else the tag's
+            if v == "Custom": return {"custom"}
+            sn = snake(v)
+            if sn.endswith("_short"): sn = sn[:-6]
+            return {sn}
+        rep.floor("R06.5", "Var variants with a ZervVars read in resolve_value", len(tab), 19)
+        for v in sorted(tab):
+            if tab[v] == expected(v): rep.ok("R06.5", "Var::%s reads only vars.%s" % (v, sorted(tab[v])), nontrivial_key="own:" + v)
+            else: rep.bad("R06.5", "foreign-field:" + v, "Var::%s resolves from vars.%s, expected only %s: with its own field unset it would still contribute" % (v, sorted(tab[v]), sorted(expected(v))), rv.where())
     # ---- R06.6 tier inputs --------------------------------------------------------------------------------------------------
     sw = F.fn("crate::schema::presets::ZervSchemaPreset::schema_with_zerv")
     if rep.anchor("R06.6", "ZervSchemaPreset::schema_with_zerv", sw):
